@@ -223,7 +223,7 @@ macro_rules! pipeline {
 }
 
 const S1: Spec = Spec { sys: L_A_AB, user: None, cats: CATS_MIX, unk_mult: &[1, 1, 1], nr: 2, nl: 2 };
-const S2: Spec = Spec { sys: L_A_B_AB, user: Some(L_AB), cats: CATS_CHAIN, unk_mult: &[2, 1, 1], nr: 3, nl: 2 };
+const S2: Spec = Spec { sys: L_A_B_AB, user: Some(L_AB), cats: CATS_CHAIN, unk_mult: &[1, 1, 1], nr: 2, nl: 2 };
 /// chained categories (b belongs to two), small otherwise
 const S2S: Spec = Spec { sys: L_B, user: None, cats: CATS_CHAIN, unk_mult: &[1, 1, 1], nr: 2, nl: 2 };
 const S3: Spec = Spec { sys: L_B, user: None, cats: CATS_DENSE, unk_mult: &[1, 2, 1], nr: 2, nl: 2 };
@@ -248,7 +248,7 @@ pipeline!(c01_pipe_s1_a_sp_ignore, S1, [A, SP], "\u{1}\u{4}", true, 0, 1);
 pipeline!(c01_pipe_s1_sp_a_ignore, S1, [SP, A], "\u{4}\u{1}", true, 0, 1);
 //@ c01_pipe_s1_spaces_only {"desc":"ignore_space, spaces only: no tokens","bounds":"N=2 \"<sp><sp>\"; dictionary S1","symbolic":"costs, ids, matrix","functions":["Tokenizer::build_lattice_inner","Lattice::insert_eos","Lattice::append_top_nodes"],"fs":2048,"unwind":6,"timeout":900}
 pipeline!(c01_pipe_s1_spaces_only, S1, [SP, SP], "\u{4}\u{4}", true, 0, 0);
-//@ c01_pipe_s2_ab_user {"tier":"thorough","core":false,"mem_gb":24,"desc":"partition of \"ab\" with a user lexicon holding a homograph of a system word","bounds":"N=2; dictionary S2: system {a,b,ab}, user {ab}, chained categories, 2/1/1 unk entries, 3x2 matrix","symbolic":"costs, ids, matrix","functions":["Tokenizer::add_lattice_edges","Dictionary::word_feature","Dictionary::word_param","Token::lex_type"],"fs":2048,"unwind":7,"timeout":900}
+//@ c01_pipe_s2_ab_user {"tier":"thorough","core":false,"mem_gb":24,"desc":"partition of \"ab\" with a user lexicon holding a homograph of a system word","bounds":"N=2; dictionary S2: system {a,b,ab}, user {ab}, chained categories, 1/1/1 unk entries, 2x2 matrix","symbolic":"costs, ids, matrix","functions":["Tokenizer::add_lattice_edges","Dictionary::word_feature","Dictionary::word_param","Token::lex_type"],"fs":2048,"unwind":7,"timeout":900}
 pipeline!(c01_pipe_s2_ab_user, S2, [A, B], "\u{1}\u{2}", false, 0, 1);
 //@ c01_pipe_s2_bc {"tier":"thorough","core":false,"mem_gb":24,"desc":"partition of \"bc\": b belongs to two categories and chains with c","bounds":"N=2; dictionary S2","symbolic":"costs, ids, matrix","functions":["Sentence::compute_groupable","UnkHandler::gen_unk_words","Tokenizer::add_lattice_edges"],"fs":2048,"unwind":7,"timeout":900}
 pipeline!(c01_pipe_s2_bc, S2, [B, C], "\u{2}\u{3}", false, 0, 1);
@@ -268,8 +268,8 @@ pipeline!(c01_pipe_user_after_space, S_U, [SP, A], "\u{4}\u{1}", true, 0, 1);
 //@ c01_pipe_user_b_sp_a {"tier":"thorough","desc":"ignore_space, user word after an inner gap: \"b<sp>a\"","bounds":"N=3; dictionary S_U","symbolic":"costs, ids, matrix","functions":["Tokenizer::add_lattice_edges","Tokenizer::build_lattice_inner"],"fs":2048,"unwind":7,"timeout":2400,"mem_gb":24}
 pipeline!(c01_pipe_user_b_sp_a, S_U, [B, SP, A], "\u{2}\u{4}\u{1}", true, 0, 2);
 
-//@ c01_pipe_s1_ccc_maxgroup1 {"tier":"thorough","core":false,"desc":"max_grouping_len=1 with a grouped run of 3: the run is omitted and single characters are produced","bounds":"N=3 \"ccc\"; dictionary S1","symbolic":"costs, ids, matrix","functions":["Tokenizer::max_grouping_len","UnkHandler::gen_unk_words"],"fs":2048,"unwind":7,"timeout":2400,"mem_gb":24}
-pipeline!(c01_pipe_s1_ccc_maxgroup1, S1, [C, C, C], "\u{3}\u{3}\u{3}", false, 1, 3);
+//@ c01_pipe_s1_ccc_maxgroup1 {"tier":"thorough","core":false,"desc":"max_grouping_len=1 with a grouped run of 3: the run of 3 is omitted at position 0 (single character), the run of 2 at position 1 is allowed","bounds":"N=3 \"ccc\"; dictionary S1","symbolic":"costs, ids, matrix","functions":["Tokenizer::max_grouping_len","UnkHandler::gen_unk_words"],"fs":2048,"unwind":7,"timeout":2400,"mem_gb":24}
+pipeline!(c01_pipe_s1_ccc_maxgroup1, S1, [C, C, C], "\u{3}\u{3}\u{3}", false, 1, 2);
 //@ c01_pipe_s1_a_sp_b_ignore {"desc":"ignore_space, inner gap: \"a<sp>b\"","bounds":"N=3; dictionary S1","symbolic":"costs, ids, matrix","functions":["Tokenizer::build_lattice_inner","Lattice::insert_node","Lattice::append_top_nodes"],"fs":2048,"unwind":7,"timeout":2400,"mem_gb":24}
 pipeline!(c01_pipe_s1_a_sp_b_ignore, S1, [A, SP, B], "\u{1}\u{4}\u{2}", true, 0, 2);
 //@ c01_pipe_s1_abc {"tier":"thorough","core":false,"desc":"partition of \"abc\"","bounds":"N=3; dictionary S1","symbolic":"costs, ids, matrix","functions":["Worker::tokenize"],"fs":2048,"unwind":7,"timeout":2400,"mem_gb":24}
